@@ -291,7 +291,10 @@ _msg_set_re = re.compile(_msg_set)
 # An atom is one or more characters that is not an atom special
 # ie: "(" / ")" / "{" / SPACE / CTL / list_wildcards / quoted_specials
 #
-_atom = r'[^\(\)\{\} \000-\037\177%\*"\\]+'
+# NOTE: "}" is not an atom special: `a}b` is an ordinary atom (mailbox name,
+#       tag, keyword). Stopping at it parsed `CREATE a}b` as `CREATE a`.
+#
+_atom = r'[^\(\)\{ \000-\037\177%\*"\\]+'
 _atom_re = re.compile(_atom)
 
 # There are some pre-defined fetch attribute macros we need to look for
@@ -304,7 +307,7 @@ _fetch_att_macros_re = re.compile(_fetch_att_macros, flags=re.IGNORECASE)
 # A list_atom is just like an atom, except we allow list_wildcards ('*'
 # and '%')
 #
-_list_atom = r'[^\(\)\{\} \000-\037\177"\\]+'
+_list_atom = r'[^\(\)\{ \000-\037\177"\\]+'
 _list_atom_re = re.compile(_list_atom)
 
 # A simple "+" or "-" choice.
@@ -314,7 +317,7 @@ _plus_or_minus_re = re.compile(_plus_or_minus)
 
 # A tag is an atom, except '+' is not allowed also.
 #
-_tag = r'[^\+\(\)\{\} \000-\037\177%\*"\\]+'
+_tag = r'[^\+\(\)\{ \000-\037\177%\*"\\]+'
 _tag_re = re.compile(_tag)
 
 # A quoted string is any text char except quoted specials, unless they
